@@ -37,6 +37,8 @@ type Unit struct {
 	Entries   []string            `json:"entries"`
 	Nop       []string            `json:"nop"`
 	NopFuncs  []string            `json:"nop_funcs"`
+	Havoc     []string            `json:"havoc"` // dependency functions modelled by signature only (error or arbitrary success)
+	ProtoBytesLens []int          `json:"proto_bytes_lens"`
 	SkipInit  []string            `json:"skip_init"`
 	Replace   map[string]string   `json:"replace"`
 	PreemptMem []string           `json:"preempt_mem"`
@@ -50,6 +52,7 @@ type Unit struct {
 	Validate  int      `json:"validate"` // number of translator-validation vectors (quick)
 	NoValidate bool    `json:"no_validate"`
 	NoMerge   bool     `json:"no_merge"`
+	ProtoDepth int     `json:"proto_depth"`
 	GroupOrder string  `json:"group_order"` // prime order of the modelled bn256 groups (decimal); default: the real BN254 order
 	Race      bool     `json:"race"` // happens-before data race detection on repository code
 	StressRuns int     `json:"stress_runs"` // native runs attempted to reproduce an engine-confirmed schedule-dependent violation
